@@ -101,6 +101,17 @@ def gen_project(rnd, idx):
         if rnd.random() < 0.3:
             text = text.replace("\n\n", "\n\n// noise\n\n", 1)
         files.append((path, text))
+    if idx % 6 == 1:
+        # two different commands whose names camelCase to one TypeScript identifier: each still needs its own wrapper
+        stem = "fetch_%d" % idx
+        pair = rnd.choice([(stem + "_user", "fetch%dUser" % idx), (stem + "_x", stem + "__x"), (stem + "_y", stem + "_y_")])
+        akey, atext = ATTRS[0]
+        extra = ""
+        for nm in pair:
+            extra += rg.command_src(nm, rnd.choice(PARAM_LAYOUTS[:3]), "i32", False, atext, "pub ")
+            truth[nm] = {"attr": akey, "vis": "pub", "async": False, "ret": ("num",), "pre": 0, "post": 0, "layout": "plain", "file": "colliding.rs", "depth": 0}
+        files.append(("colliding.rs", rg.PRELUDE + extra))
+        feats.add("camelCase-colliding-command-names")
     if not truth:
         name, src, info = command()
         info["file"] = "lib.rs"
@@ -169,6 +180,9 @@ def run_case(a):
             return dict(res, witness=proj.witness_of(files, mode))
         seen = {}
         for fname, lst in out.commands().items():
+            if len(lst) > 1:
+                res["viol"].append(("C03 several-wrappers-exported-under-one-name", "%d wrappers are exported as %s (invoking %s): only one of them is callable" % (
+                    len(lst), fname, sorted(str(c["invoke_name"]) for c in lst))))
             for c in lst:
                 seen.setdefault(c["invoke_name"], []).append((fname, c))
         for name, info in truth.items():
